@@ -1,6 +1,7 @@
 import SMV.Render
 import SMV.Ops
 import SMV.Core
+import SMV.Static
 /-
   Line protocol of the model driver (not part of any proof): reads one definition per
   line in the prefix format written by /verif/gen, prints the model's front-end dump (T1)
@@ -304,7 +305,9 @@ def stepLine (o : StepOut) (p : Option DynParts) : String :=
 def infoLines (m : Machine) (feature : Bool) : List String :=
   [ s!"machine {Name.toString m.name} async={m.asyncMode} concrete={m.context.isSome} dynamic={m.dynamicMode || feature}",
     s!"dynname {Name.toString (dynamicName m)} eventenum {Name.toString (eventEnumName m)}",
-    s!"initial {Name.toString m.initial}" ] ++
+    s!"initial {Name.toString m.initial}",
+    -- do rustc's duplicate-name rules (Static.lean) accept the expansion? (false: a derived-name collision)
+    s!"static accepted={Static.accepted (if m.dynamicMode || feature then genTypestate m ++ genDynamic m else genTypestate m)}" ] ++
   m.states.map (fun s => s!"state {Name.toString s} snake={Name.toString (toSnake s)}") ++
   (sortNames m.hierarchy.allSuperstates).map (fun s => s!"superstate {Name.toString s}") ++
   m.storage.map (fun s => s!"storage {Name.toString s.stateName} field={Name.toString s.field} opt={Name.toString (trimUnderscores s.field)} snake={Name.toString (toSnake s.stateName)} leaf={m.states.contains s.stateName}") ++
